@@ -137,6 +137,10 @@ func (os *ObjectStream) parseHeader() error {
 	}
 
 	headerData := os.decoded[:os.first]
+	// Every (objNum offset) pair takes at least one byte, so /N cannot exceed the header size.
+	if os.n > len(headerData) {
+		return fmt.Errorf("object count /N (%d) exceeds header length (%d)", os.n, len(headerData))
+	}
 	parser := NewParser(bytes.NewReader(headerData))
 
 	os.offsets = make([]objectStreamOffset, 0, os.n)
@@ -201,10 +205,10 @@ func (os *ObjectStream) GetObjectByIndex(index int) (Object, int, error) {
 		endOffset = len(os.decoded)
 	}
 
-	if offset >= len(os.decoded) {
-		return nil, 0, fmt.Errorf("object offset %d exceeds decoded data length %d", offset, len(os.decoded))
+	if offset < os.first || offset >= len(os.decoded) {
+		return nil, 0, fmt.Errorf("object offset %d outside decoded data [%d, %d)", offset, os.first, len(os.decoded))
 	}
-	if endOffset > len(os.decoded) {
+	if endOffset > len(os.decoded) || endOffset < offset {
 		endOffset = len(os.decoded)
 	}
 
